@@ -13,7 +13,7 @@ from vlib.core import Result, HELD, VIOLATED, INCONCLUSIVE
 PROP = "C09"
 FLAVOURS = ["asan"]
 RULE = ("cases: all 128 combinations of (output file/string, log file/string, dump file/string, error file) x inputs "
-        "(quick: 6 fixed inputs incl. warnings, an input error, KNOBS -logfile, DUMP -append, several selected-output numbers; thorough repeats each with 8 draws of the random part), "
+        "(quick: 7 fixed inputs incl. warnings, an input error, KNOBS -logfile, DUMP -append, several selected-output numbers; thorough repeats each with 8 draws of the random part), "
         "error-string and per-number selected-output switches drawn at random, custom or default file names, all switches re-drawn before a second call; "
         "non-trivial = at least one sink received >0 bytes; distinct = (switch vector, input, file-name mode)")
 ASSUME = ["dump string/file equality is judged for calls in which both dump sinks were on since the instance was created",
@@ -42,6 +42,10 @@ INPUTS = {
     "error": SEL2 + "SOLUTION 1\n Na 1\n Cl 1\n Xx 3\nEND\nSOLUTION 2\n Na 1\nEND\n",
     "logfile": "KNOBS\n -logfile true\n -iterations 150\n" + SEL2 + "SOLUTION 1\n Na 1\n Cl 1\n Ca 2\n S(6) 2\nEQUILIBRIUM_PHASES 1\n Gypsum 0 1\n Calcite 0 1\nREACTION 1\n NaCl 1\n 1 2 3 mmol\nEND\n",
     "dump_append": "SOLUTION 1\n K 1\n Cl 1\nEND\nDUMP\n -solution 1\nEND\nSOLUTION 2\n K 2\n Cl 2\nEND\nDUMP\n -append true\n -solution 2\nEND\n",
+    # read-outs of per-phase state (Peng-Robinson pressure / fugacity coefficient of a gas held as a pure phase) in a later simulation without that phase:
+    # what is left behind after a step must not depend on whether anything was printed
+    "pr_gas": SEL2 + "USER_PUNCH 1\n -headings prp prphi\n 10 PUNCH PR_P(\"CO2(g)\"), PR_PHI(\"CO2(g)\")\nSOLUTION 1\n Na 1\n Cl 1\n C(4) 1\nEQUILIBRIUM_PHASES 1\n CO2(g) 1.7 10\nEND\n"
+              "USE solution 1\nREACTION 1\n NaCl 1\n 1 mmol\nEND\n",
     "advect": SEL2 + "SOLUTION 0\n Na 1\n Cl 1\nSOLUTION 1-3\n K 1\n N(5) 1\nADVECTION\n -cells 3\n -shifts 4\n -punch_frequency 1\n -print_frequency 2\nPRINT\n -selected_output true\nEND\n",
 }
 SECOND = "USE solution 1\nREACTION 1\n NaCl 1\n 0.5 mmol\nEND\nDUMP\n -all\nEND\n"
